@@ -69,6 +69,20 @@ class Coll:
         self.dirname, self.items, self.macro = dirname, items, macro
 
 
+class ESP:
+    """dict entry written with Rally's helper {{ rally.exists_set_param("key", param) }} (docs/advanced.rst): the entry exists
+    only when the parameter is supplied (or a default_value is given). Stored in the spec dict under its key."""
+
+    def __init__(self, p, default_value=None):
+        self.p, self.default_value = p, default_value
+
+    def present(self):
+        return self.p.supplied or self.default_value is not None
+
+    def value(self):
+        return self.p.eff if self.p.supplied else self.default_value
+
+
 class Cond:
     """list item wrapped in {% if flag %}...{% endif %}; flag is a P (bool)."""
 
@@ -87,7 +101,7 @@ def plain(node):
     if isinstance(node, Inc):
         return plain(node.node)
     if isinstance(node, dict):
-        return {k: plain(v) for k, v in node.items()}
+        return {k: (plain(v) if not isinstance(v, ESP) else v.value()) for k, v in node.items() if not isinstance(v, ESP) or v.present()}
     if isinstance(node, list):
         out = []
         for it in node:
@@ -132,6 +146,8 @@ class Printer:
         self.stack = ["main"]
 
     def ctx(self):
+        if "macro-part" in self.stack:
+            return "macro-part"
         if "jinja-include" in self.stack:
             return "jinja-include"
         if "collect-part" in self.stack:
@@ -155,10 +171,21 @@ class Printer:
         if isinstance(node, dict):
             if not node:
                 return "{}"
-            parts = []
+            parts, helper = [], ""
             for k, v in node.items():
+                if isinstance(v, ESP):
+                    continue
                 parts.append("%s  %s: %s" % (pad, json.dumps(k, ensure_ascii=False), self.emit(v, ind + 2)))
-            return "{\n" + ",\n".join(parts) + "\n" + pad + "}"
+            for k, v in node.items():
+                if isinstance(v, ESP):  # at most one per dict; the helper brings its own leading comma
+                    self.ref(v.p)
+                    args = '"%s", %s' % (k, v.p.name)
+                    if v.default_value is not None:
+                        args += ", default_value=%s" % json.dumps(v.default_value)
+                    if not parts:
+                        args += ", comma=False"
+                    helper = "\n%s  {{ rally.exists_set_param(%s) }}" % (pad, args)
+            return "{\n" + ",\n".join(parts) + helper + "\n" + pad + "}"
         if isinstance(node, list):
             if not node:
                 return "[]"
@@ -170,7 +197,7 @@ class Printer:
                 last = i == n - 1
                 sep = "" if last else ","
                 if isinstance(it, Coll):
-                    self.stack.append("jinja-include" if it.macro else "collect-part")
+                    self.stack.append("macro-part" if it.macro else "collect-part")
                     for j, sub in enumerate(it.items):
                         self.files["%s/%02d.json" % (it.dirname, j)] = self.emit(sub, 0) + "\n"
                     self.stack.pop()
@@ -261,13 +288,15 @@ EXP_KEY = {"warmup-iterations": "wi", "iterations": "it", "warmup-time-period": 
 
 
 class Gen:
-    def __init__(self, rng, size="small"):
+    def __init__(self, rng, size="small", want=None):
         self.rng = rng
         self.size = size
+        self.want = want  # the rule that will be violated in the twin: bias the model so that the rule is applicable
         self.params = {}  # name -> dict(default, eff, supplied, kind)
         self.sets = []  # header {% set %} variables
         self.counter = 0
         self.features = set()
+        self.needs_import = False
         self.param_budget = rng.choice([0, 0, 2, 4, 8])
         self.p_supplied = rng.choice([0.0, 0.3, 0.6])
 
@@ -276,19 +305,19 @@ class Gen:
         self.counter += 1
         return "%s_%d" % (prefix, self.counter)
 
-    def pv(self, eff, prefix="p"):
+    def pv(self, eff, prefix="p", allow_set=True):
         """Returns (spec leaf, expect leaf) for scalar eff: literal, or a track parameter."""
         rng = self.rng
         if self.param_budget <= 0 or rng.random() < 0.5 or isinstance(eff, float):
             return eff, eff
         self.param_budget -= 1
         # reuse a parameter with the same effective value now and then (one parameter, several places)
-        same = [n for n, d in self.params.items() if type(d["eff"]) is type(eff) and d["eff"] == eff]
+        same = [n for n, d in self.params.items() if d["form"] not in ("esp", "cond") and type(d["eff"]) is type(eff) and d["eff"] == eff]
         if same and rng.random() < 0.4:
             d = self.params[same[0]]
             self.features.add("param-reused")
             return P(same[0], d["default"], eff, d["form"], d["supplied"]), PV(eff, same[0])
-        if isinstance(eff, int) and not isinstance(eff, bool) and rng.random() < 0.1:
+        if allow_set and isinstance(eff, int) and not isinstance(eff, bool) and rng.random() < 0.1:
             name = self.fresh("var")
             self.sets.append((name, eff))
             self.features.add("set-variable")
@@ -328,7 +357,7 @@ class Gen:
         p = {}
         if typ == "bulk":
             p["bulk-size"] = rng.choice([1, 100, 5000])
-            if rng.random() < 0.3:
+            if rng.random() < 0.3 or self.want == "schema-enum":
                 p["conflicts"] = rng.choice(["sequential", "random"])
             if rng.random() < 0.2:
                 p["pipeline"] = "pipe"
@@ -342,7 +371,7 @@ class Gen:
                 p["pages"] = rng.randint(1, 5)
                 p["results-per-page"] = rng.choice([10, 100])
         elif typ == "force-merge":
-            if rng.random() < 0.4:
+            if rng.random() < 0.4 or self.want == "schema-enum":
                 p["mode"] = rng.choice(["blocking", "polling"])
                 p["poll-period"] = rng.randint(1, 20)
         elif typ == "cluster-health":
@@ -368,11 +397,13 @@ class Gen:
             p["assertions"] = [{"property": "hits", "condition": ">", "value": 0}]
         return p
 
-    def operation(self, name, custom_ok=True):
+    def operation(self, name, custom_ok=True, force_type=None):
         """Returns (spec dict, expect dict). name None => not written (defaults to the type, docs 'Defining operations')."""
         rng = self.rng
         custom = custom_ok and rng.random() < 0.15
         typ = rng.choice(["my-custom-op", "percolate", "x-pack-thing"]) if custom else rng.choice(self.doc_types)
+        if force_type:
+            typ = force_type
         self.used_types.add(typ)
         spec, written = {}, {}
         if name is not None:
@@ -388,6 +419,20 @@ class Gen:
             else:
                 s, e = v, v
             spec[k], written[k] = s, e
+        if self.param_budget > 0 and rng.random() < 0.08:
+            # docs/advanced.rst: set a value only if the track parameter has been provided
+            self.param_budget -= 1
+            pname = self.fresh("opt")
+            supplied = rng.random() < max(self.p_supplied, 0.3)
+            val = rng.choice([-1, 8, "40mb"])
+            dv = rng.choice([None, None, 5])
+            self.params[pname] = {"default": dv, "eff": val, "supplied": supplied, "form": "esp"}
+            esp = ESP(P(pname, dv, val, "esp", supplied), dv)
+            spec["max-bytes-setting"] = esp
+            if esp.present():
+                written["max-bytes-setting"] = PV(esp.value(), pname)
+            self.needs_import = True
+            self.features.add("exists_set_param-" + ("supplied" if supplied else ("default" if dv is not None else "absent")))
         ps = None
         if rng.random() < 0.1:
             ps = spec["param-source"] = written["param-source"] = rng.choice(["my-source", "sorted-terms"])
@@ -465,6 +510,11 @@ class Gen:
                 eff_wtp = own.get("warmup-time-period", pd.get("warmup-time-period"))
                 if eff_wtp is None or eff_wtp < pd["ramp-up-time-period"]:
                     own["warmup-time-period"] = pd["ramp-up-time-period"] + rng.choice([0, 5])
+        elif self.want == "ramp-up-larger-than-warmup-time-period" and not self.forced_task:
+            self.forced_task = True  # the rule needs a time-based task with a warm-up time period
+            own = {"warmup-time-period": rng.choice([0, 10, 120])}
+            if rng.random() < 0.5:
+                own["time-period"] = rng.choice([1, 60])
         else:
             mode = rng.choice(["none", "iter", "time"])
             own = self.timing(mode, allow_rup=not in_parallel)
@@ -527,12 +577,18 @@ class Gen:
             self.features.add("parallel-default-inherited")
         return spec, exp
 
-    def parallel(self, ch_names, ops_section):
+    def parallel(self, ch_names, ops_section, force_rup=False):
         rng = self.rng
         pspec = {}
         mode = rng.choice(["none", "none", "iter", "time", "time"])
         pd = self.timing(mode, allow_rup=True)
-        if pd and rng.random() < 0.3:  # only part of the defaults
+        if force_rup:
+            w = rng.choice([10, 120, 300])
+            pd = {"warmup-time-period": w, "ramp-up-time-period": rng.choice([0, w // 2, w])}
+            if rng.random() < 0.5:
+                pd["time-period"] = rng.choice([1, 60])
+            self.features.add("ramp-up")
+        elif pd and rng.random() < 0.3:  # only part of the defaults
             k = rng.choice(sorted(pd))
             if k != "warmup-time-period" or "ramp-up-time-period" not in pd:
                 pd = {kk: vv for kk, vv in pd.items() if kk != k}
@@ -579,8 +635,12 @@ class Gen:
         n = rng.choice([1, 2, 3, 3, 4, 5]) if self.size == "small" else rng.choice([2, 4, 6, 9])
         names = set()
         specs, exps = [], []
+        force_at = rng.randrange(n) if self.want in ("unknown-completed-by", "ramp-up-overridden-in-nested-task") and not self.forced_parallel else -1
         for i in range(n):
-            if rng.random() < 0.35:
+            if i == force_at:
+                self.forced_parallel = True
+                s, e = self.parallel(names, ops_section, force_rup=self.want == "ramp-up-overridden-in-nested-task")
+            elif rng.random() < 0.35:
                 s, e = self.parallel(names, ops_section)
             else:
                 s, e = self.task(names, ops_section)
@@ -598,7 +658,8 @@ class Gen:
                 if on:
                     exps.append(e)
                 else:
-                    # its names are free again (the task does not exist)
+                    # its names are free again (the task does not exist); None keeps spec and expectation aligned
+                    exps.append(None)
                     for t in (e["tasks"] if e["kind"] == "parallel" else [e]):
                         names.discard(t["name"])
                 continue
@@ -611,6 +672,9 @@ class Gen:
         rng = self.rng
         self.doc_types = doc_types
         self.used_types = set()
+        self.forced_parallel = False
+        self.forced_task = False
+        want = self.want
         spec, exp = {}, {}
         body_files = {}
         if rng.random() < 0.8:
@@ -626,6 +690,8 @@ class Gen:
         exp["meta"] = m or {}
         # ---- indices / data streams / templates
         kind = rng.choice(["indices", "indices", "indices", "data-streams", "none"])
+        if want == "indices+data-streams" and kind == "none":
+            kind = rng.choice(["indices", "data-streams"])
         exp["indices"], exp["data_streams"] = [], []
         if kind == "indices":
             n = rng.choice([1, 1, 2, 3])
@@ -635,7 +701,7 @@ class Gen:
                 s = {"name": e["name"]}
                 if rng.random() < 0.6:
                     fname = "index-%d.json" % i
-                    sh, she = self.pv(rng.choice([1, 2, 5]), "shards")
+                    sh, she = self.pv(rng.choice([1, 2, 5]), "shards", allow_set=False)
                     body_files[fname] = {"settings": {"index.number_of_shards": sh, "codec": self.text()}, "mappings": {"properties": {"f": {"type": "keyword"}}}}
                     e["body"] = {"settings": {"index.number_of_shards": she, "codec": body_files[fname]["settings"]["codec"]}, "mappings": {"properties": {"f": {"type": "keyword"}}}}
                     s["body"] = fname
@@ -663,7 +729,7 @@ class Gen:
             exp["templates"] = [{"name": "tpl", "pattern": "logs-*", "delete": dm, "content": content}]
             self.features.add("templates")
         if rng.random() < (0.6 if kind == "data-streams" else 0.15):
-            rep, repe = self.pv(rng.randint(0, 2), "replicas")
+            rep, repe = self.pv(rng.randint(0, 2), "replicas", allow_set=False)
             inner = {"settings": {"number_of_replicas": rep}}
             innere = {"settings": {"number_of_replicas": repe}}
             body_files["component.json"] = {"template": inner}
@@ -686,7 +752,7 @@ class Gen:
         # ---- corpora
         exp["corpora"] = []
         self.corpus_default_wo_section = False
-        if rng.random() < 0.75:
+        if rng.random() < 0.75 or want == "dup-corpus-name":
             spec["corpora"] = []
             for ci in range(rng.choice([1, 1, 2, 3])):
                 s, e = self.corpus(ci, kind, exp)
@@ -694,9 +760,14 @@ class Gen:
                 exp["corpora"].append(e)
         # ---- operations section
         ops_section = {}
-        if rng.random() < 0.6:
+        if rng.random() < 0.6 or want in ("dup-operation-name", "schema-enum"):
             lst = []
             for i in range(rng.choice([1, 2, 3, 5])):
+                if i == 0 and want == "schema-enum":
+                    s, e = self.operation("op0", force_type=rng.choice(["bulk", "force-merge"]))
+                    ops_section[e["name"]] = e
+                    lst.append(s)
+                    continue
                 if i == 0 and rng.random() < 0.2:
                     # named like its type, docs/track.rst "Defining operations" first example
                     s, e = self.operation("tmp", custom_ok=False)
@@ -711,6 +782,9 @@ class Gen:
         exp["operations"] = ops_section
         # ---- challenges
         form = rng.choice(["challenges", "challenges", "challenge", "schedule"])
+        many = want in ("dup-challenge-name", "no-default-challenge", "two-default-challenges")
+        if many:
+            form = "challenges"
         exp["form"] = form
         exp["challenges"] = []
         selected = None
@@ -720,7 +794,7 @@ class Gen:
             exp["challenges"].append({"name": None, "description": None, "user_info": None, "default": True, "selected": True, "meta": {}, "schedule": e})
             self.features.add("top-level-schedule")
         else:
-            n = 1 if form == "challenge" else rng.choice([1, 2, 2, 3])
+            n = 1 if form == "challenge" else rng.choice([2, 2, 3] if many else [1, 2, 2, 3])
             default_ix = rng.randrange(n)
             chs = []
             for i in range(n):
@@ -732,7 +806,7 @@ class Gen:
                 if rng.random() < 0.15:
                     cs["user-info"] = ce["user_info"] = "deprecated, use " + self.text()
                 if n == 1:
-                    # docs/track.rst challenge.default: a single challenge is implicitly the default, whatever it says
+                    # docs/track.rst l.450 challenge.default: a single challenge is implicitly the default, whatever it says
                     r = rng.random()
                     if r < 0.3:
                         cs["default"] = True
@@ -892,52 +966,72 @@ class Gen:
 
 # --------------------------------------------------------------------------- layout: includes / collect
 
-def apply_layout(rng, spec, gen, level):
-    """Wraps parts of the spec tree into Inc / Coll. Returns (spec, use_import, unordered_challenges)."""
-    use_import = rng.choice([None, None, "plain", "ctx"])
+def apply_layout(seed, spec, features, level, needs_import=False):
+    """Wraps parts of the spec tree into Inc / Coll. Every decision is a coin keyed by the element it concerns, so that removing
+    other elements (shrinking) does not change it. Returns (spec, use_import, unordered_challenges)."""
+    import random
+
+    def coin(key):
+        return random.Random(f"{seed}:{key}").random()
+
+    use_import = [None, None, "plain", "ctx"][int(coin("import") * 4)]
+    if needs_import and use_import is None:
+        use_import = "plain"
     unordered = False
     if level == 0:
         return spec, use_import, unordered
     spec = dict(spec)
     if "challenges" in spec:
-        r = rng.random()
+        r = coin("challenges")
         chs = spec["challenges"]
         if r < 0.2:
-            spec["challenges"] = [Coll("challenges", chs, macro=rng.random() < 0.15)]
+            # parts pulled in by the macro are rendered in the helper module's context, where "rally" itself is not defined
+            macro = coin("macro") < 0.15 and not needs_import
+            spec["challenges"] = [Coll("challenges", chs, macro=macro)]
             use_import = use_import or "ctx"
             unordered = len(chs) > 1  # glob order is not a property of the track
-            gen.features.add("collect-challenges-macro" if spec["challenges"][0].macro else "collect-challenges")
+            features.add("collect-challenges-macro" if macro else "collect-challenges")
         elif r < 0.4:
-            spec["challenges"] = [Inc("challenges/%s.json" % i, c) if rng.random() < 0.7 else c for i, c in enumerate(chs)]
-            gen.features.add("include-challenge")
+            new = []
+            for c in chs:
+                if coin("inc-ch:" + str(plain(c)["name"])) < 0.7:
+                    new.append(Inc("challenges/%s.json" % len(new), c))
+                    features.add("include-challenge")
+                else:
+                    new.append(c)
+            spec["challenges"] = new
         else:
             # include a single task of a schedule
             new = []
             for c in chs:
                 c = dict(c)
-                c["schedule"] = wrap_tasks(rng, c["schedule"], gen)
+                c["schedule"] = wrap_tasks(coin, c["schedule"], features, str(plain(c)["name"]), len(new))
                 new.append(c)
             spec["challenges"] = new
     elif "challenge" in spec:
-        if rng.random() < 0.25:
+        if coin("challenge") < 0.25:
             spec["challenge"] = Inc("challenges/only.json", spec["challenge"])
-            gen.features.add("include-challenge")
+            features.add("include-challenge")
     elif "schedule" in spec:
-        spec["schedule"] = wrap_tasks(rng, spec["schedule"], gen)
-    if "operations" in spec and rng.random() < 0.25:
+        spec["schedule"] = wrap_tasks(coin, spec["schedule"], features, "")
+    if "operations" in spec and coin("operations") < 0.25:
         spec["operations"] = [Coll("operations", spec["operations"])]
         use_import = use_import or "plain"
-        gen.features.add("collect-operations")
+        features.add("collect-operations")
     return spec, use_import, unordered
 
 
-def wrap_tasks(rng, sched, gen):
+def wrap_tasks(coin, sched, features, chname, prefix=0):
     out = []
-    for i, it in enumerate(sched):
-        if not isinstance(it, Cond) and rng.random() < 0.1:
-            gen.counter += 1
-            out.append(Inc("tasks/t%d.json" % gen.counter, it))
-            gen.features.add("include-task")
+    for it in sched:
+        if isinstance(it, Cond):
+            out.append(it)
+            continue
+        pj = plain(it)
+        key = _tname(None, pj["parallel"]["tasks"][0]) + "+" if "parallel" in pj else _tname(None, pj)
+        if coin("inc-task:%s:%s" % (chname, key)) < 0.1:
+            out.append(Inc("tasks/c%d-t%d.json" % (prefix, len(out)), it))
+            features.add("include-task")
         else:
             out.append(it)
     return out
@@ -1016,7 +1110,7 @@ def m_dup_task(rng, js, up):
 
 
 def m_dup_challenge(rng, js, up):
-    # property statement "duplicate ... challenge ... names"; l.445 "name (mandatory): A descriptive name of the challenge"
+    # property statement "duplicate ... challenge ... names"; l.447 "name (mandatory): A descriptive name of the challenge"
     if len(js.get("challenges", [])) < 2:
         return None
     a, b = rng.sample(range(len(js["challenges"])), 2)
@@ -1025,7 +1119,7 @@ def m_dup_challenge(rng, js, up):
 
 
 def m_dup_corpus(rng, js, up):
-    # property statement "duplicate ... corpus ... names"; l.328 "name (mandatory): Name of this document corpus ... used in directory names"
+    # property statement "duplicate ... corpus ... names"; l.330 "name (mandatory): Name of this document corpus ... used in directory names"
     if not js.get("corpora"):
         return None
     cs = js["corpora"]
@@ -1043,7 +1137,7 @@ def m_dup_corpus(rng, js, up):
 
 
 def m_dup_operation(rng, js, up):
-    # property statement "duplicate ... operation names"; l.677 "name (mandatory) ... needed to reference the operation when defining schedules"
+    # property statement "duplicate ... operation names"; l.680 "name (mandatory) ... needed to reference the operation when defining schedules"
     ops = js.get("operations")
     if not ops:
         return None
@@ -1062,7 +1156,7 @@ def m_dup_operation(rng, js, up):
 
 
 def m_no_default(rng, js, up):
-    # l.449: "otherwise you need to define "default": true on exactly one challenge"
+    # l.450: "otherwise you need to define "default": true on exactly one challenge"
     chs = js.get("challenges", [])
     if len(chs) < 2:
         return None
@@ -1076,7 +1170,7 @@ def m_no_default(rng, js, up):
 
 
 def m_two_defaults(rng, js, up):
-    # l.449 as above
+    # l.450 as above
     chs = js.get("challenges", [])
     if len(chs) < 2:
         return None
@@ -1222,15 +1316,23 @@ def m_unused_param(rng, js, up):
 
 
 def m_reserved_param(rng, js, up):
-    # docs/migrate.rst l.34, l.43 (serverless_operator, build_flavor "becomes a reserved name"); docs/advanced.rst l.22 ("now" is Rally's global)
+    # docs/migrate.rst l.34, l.43 (serverless_operator, build_flavor "becomes a reserved name"); docs/advanced.rst l.20 ("now" is Rally's global)
     up = dict(up)
     name = rng.choice(["build_flavor", "serverless_operator", "now"])
     up[name] = rng.choice([1, "x", True])
+    # note: Jinja's find_undeclared_variables skips names that are environment globals, so a reserved name never counts as "used"
+    # by the track; the same parameter is therefore also an unused one and both checks lead to a TrackConfigError
     return js, up, {"rule": "reserved-track-parameter", "param": name, "others": len(up) - 1}
 
 
+def m_future_version(rng, js, up):
+    # l.165: "Rally uses it to detect incompatible future track specification versions and raise an error" (any Rally error will do)
+    js["version"] = rng.choice([3, 4, 10])
+    return js, up, {"rule": "unsupported-future-version", "path": ["version"], "to": js["version"]}
+
+
 def m_docs_mandatory(rng, js, up):
-    # l.349 document-count (mandatory); l.466 task.operation (mandatory); l.678 operation-type (mandatory)
+    # l.353 document-count (mandatory); l.466 task.operation (mandatory); l.681 operation-type (mandatory)
     cands = []
     for ci, c in enumerate(js.get("corpora", [])):
         for di, d in enumerate(c["documents"]):
@@ -1314,7 +1416,7 @@ def schema_sites(schema, js):
 
 def m_schema(kind):
     def mut(rng, js, up, schema=None):
-        sites = [s for s in schema_sites(schema, js) if s["kind"] == kind]
+        sites = [s for s in schema_sites(schema, js) if s["kind"] == kind and not (kind == "minimum" and s["path"] == ["version"])]
         if not sites:
             return None
         # spread over distinct keys instead of over the many task-level sites
@@ -1322,6 +1424,8 @@ def m_schema(kind):
         for s in sites:
             bykey.setdefault(str(s["path"][-1]) if not isinstance(s["path"][-1], int) else str(s["path"][-2:]), []).append(s)
         s = rng.choice(bykey[rng.choice(sorted(bykey))])
+        if kind == "type" and "version" in bykey and rng.random() < 0.1:
+            s = bykey["version"][0]  # the one field Rally reads before it validates against the schema
         d = {"rule": "schema-" + kind, "path": s["path"]}
         if kind == "required":
             del s["parent"][s["key"]]
@@ -1364,10 +1468,70 @@ MUTATORS = {
     "unused-track-parameter": m_unused_param,
     "reserved-track-parameter": m_reserved_param,
     "docs-mandatory-missing": m_docs_mandatory,
+    "unsupported-future-version": m_future_version,
     "schema-required": m_schema("required"),
     "schema-type": m_schema("type"),
     "schema-minimum": m_schema("minimum"),
     "schema-enum": m_schema("enum"),
     "schema-minItems": m_schema("minItems"),
     "schema-uniqueItems": m_schema("uniqueItems"),
+}
+
+
+# --------------------------------------------------------------------------- probes (recorded, never judged)
+
+def p_target_index_with_data_streams(rng, js):
+    if "data-streams" not in js or not js.get("corpora"):
+        return None
+    d = rng.choice(rng.choice(js["corpora"])["documents"])
+    if d.get("includes-action-and-meta-data"):
+        return None
+    d["target-index"] = "some-index"
+    return js
+
+
+def p_nested_ramp_up(rng, js):
+    got = _pick_task(rng, js, lambda t, par, e: par is not None and "ramp-up-time-period" not in par and _time_only(e) and "warmup-time-period" in e)
+    if not got:
+        return None
+    _, t, par = got
+    t["ramp-up-time-period"] = _eff(t, par)["warmup-time-period"]
+    return js
+
+
+def p_throughput_and_interval(rng, js):
+    got = _pick_task(rng, js, lambda t, par, e: True)
+    _, t, par = got
+    t["target-throughput"] = 10
+    t["target-interval"] = 2
+    return js
+
+
+def p_iterations_and_time_period(rng, js):
+    got = _pick_task(rng, js, lambda t, par, e: not any(k in e for k in ("warmup-iterations", "warmup-time-period", "ramp-up-time-period", "time-period")))
+    if not got:
+        return None
+    _, t, par = got
+    t["iterations"] = 10
+    t["time-period"] = 60
+    return js
+
+
+def p_inline_operation_named_like_section_operation(rng, js):
+    if not js.get("operations"):
+        return None
+    got = _pick_task(rng, js, lambda t, par, e: isinstance(t["operation"], dict) and "name" in t)
+    if not got:
+        return None
+    _, t, par = got
+    t["operation"]["name"] = rng.choice(js["operations"])["name"]
+    return js
+
+
+PROBES = {
+    "target-index-with-data-streams": p_target_index_with_data_streams,
+    "ramp-up-on-nested-task-only": p_nested_ramp_up,
+    "target-throughput-and-target-interval": p_throughput_and_interval,
+    "iterations-and-time-period": p_iterations_and_time_period,
+    "inline-operation-named-like-section-operation": p_inline_operation_named_like_section_operation,
 }
